@@ -547,6 +547,30 @@ func checkC14(p *Prog, r *Report) {
 					}
 				}
 			}
+			if !safe && A != nil {
+				// confined to ASCII by a byte-range validator: accept ⇒ g(field) == nil with g returning an error for any byte
+				// outside a constant range below 0x80
+				for _, a := range A.Atoms() {
+					t := a.Term
+					if t == nil || t.Op != "eq" || len(t.Args) != 2 {
+						continue
+					}
+					call := t.Args[0]
+					if call.Op == "const" {
+						call = t.Args[1]
+					}
+					if call.Op != "call" || len(call.Args) != 1 {
+						continue
+					}
+					if f, ok := fieldOfSubject(call.Args[0]); !ok || f != fld.Name() {
+						continue
+					}
+					g := staticCalleeOfTerm(p, call)
+					if g != nil && asciiOnlyValidator(resolveBound(g)) && Entails(A, a) {
+						safe, why = true, "confined to a constant byte range below 0x80 by "+FuncName(g)+" (pure ASCII)"
+					}
+				}
+			}
 			if safe {
 				r.OK(key, rule, site, why)
 			} else {
